@@ -64,7 +64,7 @@ def rand_case(rng, hashname, nkeys=None, nbatches=None, proofs=0, atomic=None):
         for k in sub:
             ks.append(k.hex())
             vs.append(DEFAULT if rng.random() < pdel else rand_val(rng))
-        batches.append({"k": ks, "v": vs, "commit": rng.random() < 0.8})
+        batches.append({"k": ks, "v": vs, "commit": rng.random() < 0.9})
     # probe keys never written: share prefixes with written keys (absent / foreign-leaf classes)
     extra = set()
     for _ in range(rng.choice([1, 2, 3])):
@@ -161,3 +161,54 @@ def run_engine(ctx, binpath, test, cases, tag):
     if rc != 0:
         raise RuntimeError("%s failed:\n%s" % (test, log[-3000:]))
     return [l.rstrip("\n") for l in open(fout)]
+
+
+EXTRACT_V = """From Coq Require Import Extraction ExtrOcamlBasic List NArith.
+From Verif Require Import Trie.Model Trie.Proof%s.
+Extraction Language OCaml.
+Extraction "trie_model.ml" trie_update get root bytes_to_bits mproof compress
+  verify_inclusion verify_non_inclusion verify_inclusion_c verify_non_inclusion_c%s.
+"""
+
+
+def build_driver(ctx, extra_import="", extra_syms=""):
+    """Extract the model (ExtrOcamlBasic only) and build the OCaml driver in build/<id>/coq."""
+    import shutil
+    import vf
+    rc, out = ctx.coq_make(["Trie/Proof.vo"])
+    if rc != 0:
+        return None, "coq/Trie/Proof.v does not build: " + out[-1500:]
+    rc, out = ctx.coq_eval("extract_trie", EXTRACT_V % (extra_import, extra_syms), timeout=600)
+    d = os.path.join(ctx.workdir, "coq")
+    if rc != 0 or not os.path.exists(os.path.join(d, "trie_model.ml")):
+        return None, "extraction failed: " + out[-1500:]
+    src = os.path.join(vf.HARNESS, "engines", "trie")
+    for f in ("driver.ml", "driver_c11.ml"):
+        shutil.copy(os.path.join(src, f), os.path.join(d, f))
+    exe = os.path.join(d, "trie_driver")
+    rc, out = vf.sh(["ocamlfind", "ocamlopt", "-O3", "-w", "-a", "trie_model.mli", "trie_model.ml",
+                     "driver_c11.ml", "driver.ml", "-o", exe], cwd=d, timeout=600)
+    if rc != 0:
+        return None, "driver build failed: " + out[-1500:]
+    return exe, None
+
+
+def run_driver(ctx, exe, text, timeout=1700):
+    import vf
+    rc, out = vf.sh([exe], cwd=ctx.workdir, input=text, timeout=timeout)
+    if rc != 0:
+        raise RuntimeError("model driver failed: " + out[-2000:])
+    return out.split("\n")
+
+
+def hx_or_dash(s):
+    return s if s else "-"
+
+
+def driver_case_text(c, o):
+    """C10 records of one case (see harness/engines/trie/driver.ml)."""
+    lines = ["Q " + " ".join(c["q"])]
+    for b, r, g in zip(c["batches"], o["roots"], o["gets"]):
+        lines.append("B " + " ".join("%s %s" % (k, "-" if v == DEFAULT else v) for k, v in zip(b["k"], b["v"])))
+        lines.append("O " + hx_or_dash(r) + " " + " ".join(hx_or_dash(x) for x in g))
+    return lines
